@@ -142,3 +142,12 @@ func verifDumpNodeAt(b *Bucket, id common.Pgid) *VerifNodeTree {
 	}
 	return t
 }
+
+// VerifOpenedBuckets returns the per-transaction cache of child buckets opened through b (Bucket.buckets).
+func VerifOpenedBuckets(b *Bucket) map[string]*Bucket {
+	r := make(map[string]*Bucket, len(b.buckets))
+	for k, v := range b.buckets {
+		r[k] = v
+	}
+	return r
+}
